@@ -91,7 +91,7 @@ theorem parent?_disj (s : Sep r f) {h p : Nat} (hn : h ∉ handles r) (hp : f.pa
     subst hp
     obtain ⟨t, ht, hb⟩ := findSome?_root (ctxBelow h) f.roots c hc
     obtain ⟨h1, _, h3, _⟩ := ctxBelow_sub h t c hb
-    have hmem : h ∈ handles t := h3 h (h1 ▸ handle_mem_handles c.self)
+    have hmem : h ∈ handles t := h3 h (h1 ▸ fc_handle_mem_handles c.self)
     have htr : t ≠ r := fun e => hn (e ▸ hmem)
     intro har
     exact s.disj t ht htr _ har (ctxBelow_parent_mem h t c hb)
@@ -136,7 +136,7 @@ theorem mapClear (s : Sep r f) {k : Forest.MapKind} {p : Nat} (hp : p ∉ handle
       simp only
       apply foldl_remove (fun c : HTree => c.handle) _ s
       intro x hx
-      exact s.kids_disj hp hg x (mapChildren_sub k t0 x hx) _ (handle_mem_handles x)
+      exact s.kids_disj hp hg x (mapChildren_sub k t0 x hx) _ (fc_handle_mem_handles x)
 
 theorem mapInsertNode (s : Sep r f) (hb : Below r f) {k : Forest.MapKind} {p n : Nat}
     (hp : p ∉ handles r) (hn : n ∉ handles r) : Sep r (f.mapInsertNode k p n).1 := by
